@@ -4,6 +4,8 @@ import (
 	"fmt"
 	"io"
 	"math"
+	"net"
+	"os"
 	"runtime"
 	"sort"
 	"strings"
@@ -199,10 +201,14 @@ func c08Run(c *mon.Ctx, r *mon.Rand) {
 			opts.Reporter = multi.NewMultiReporter(multi.NewMultiReporter(opts.Reporter))
 		}
 	}
+	var closeErr error
 	if closerKind == 2 {
-		rec.CloseErr = mon.ErrRecClose
+		// (any error value: a sentinel of the harness, the standard library's
+		// "already closed" errors bare or wrapped, a path error)
+		closeErr = []error{mon.ErrRecClose, mon.ErrRecClose, os.ErrClosed, fmt.Errorf("flush connection: %w", os.ErrClosed), net.ErrClosed, &os.PathError{Op: "close", Path: "/dev/metrics", Err: os.ErrClosed}, io.ErrClosedPipe}[r.Intn(7)]
+		rec.CloseErr = closeErr
 		if recB != nil {
-			recB.CloseErr = mon.ErrRecClose
+			recB.CloseErr = closeErr
 		}
 	}
 	interval := time.Duration(r.Range(100, 500)) * time.Microsecond
@@ -633,8 +639,8 @@ func c08Run(c *mon.Ctx, r *mon.Rand) {
 		for _, e := range errs {
 			if e != nil {
 				nErr++
-				if e != mon.ErrRecClose {
-					bad("close-error-changed", fmt.Sprintf("Close returned %v, the reporter's Close returned %v", e, mon.ErrRecClose))
+				if e != closeErr {
+					bad("close-error-changed", fmt.Sprintf("Close returned %v, the reporter's Close returned %v", e, closeErr))
 				}
 			}
 		}
